@@ -99,6 +99,39 @@ add('C03', 'model_checking',
     TRUSTED + ' Regex matching is an environment fact (re.search) passed to TLC as match bits.',
     'TLA+ spec + TLC trace validation of real runs, cross-mode relation checked by TLC', 'DESIGN.md 5/C03')
 
+add('C08', 'model_checking',
+    'TLC checks Filter!Accept against the literal statement and its corollaries (with the exact '
+    'preconditions) for all lists <= 3 over 3 abstract patterns x all match relations; TLAPS proves '
+    'the corollaries for lists of any length (4 obligations); the real build_filtering_func is run '
+    'on every list <= 2 (thorough <= 3) from a pool of 17 signed regexes x 11 names, directly and '
+    'through get_options for -t / -m / --layer, and TLC evaluates Accept for every record; end to '
+    'end, --list-tests of a fixed world for every -t / --layer list <= 2 is validated against Selected.',
+    TRUSTED + ' re.search is the environment relation; the empty candidate name is outside the quantifier.',
+    'TLA+ spec + TLC exhaustive check + TLAPS lemmas + TLC-evaluated oracle on real calls', 'DESIGN.md 5/C08')
+add('C09', 'model_checking',
+    'TLC (SelectionMC.tla): for every declaration path of depth <= 3 (thorough 4) x levels x option '
+    'vectors the hand-down recursion of tests_from_suite equals the nearest declaration, and the level '
+    '/ unit switches have the documented boundary behaviour; the real runner is run on all 2^10 presence '
+    'patterns of layer / level over (3 nested suites, class, test instance) with random values, siblings '
+    'and option vectors; TLC computes the expected grouping and selection for every listing and run.',
+    TRUSTED, 'TLA+ spec + TLC exhaustive check + TLC-evaluated oracle on real listings and runs', 'DESIGN.md 5/C09')
+add('C10', 'model_checking',
+    'TLC (LayerOrderMC.tla): the transcription of layer_sort_key / gather_layers / order_by_bases yields '
+    'a valid order (once each, bases first, unit first) that is independent of the presentation order, for '
+    'all ordered-base DAGs <= 3 layers (thorough 4) x namings x subsets x all input permutations; the real '
+    'order_by_bases is called with every permutation of the input for class and instance layers under three '
+    'PYTHONHASHSEED values, TLC checks validity and equality of all observations (and, as DRIFT, equality '
+    'with the transcription); header order of real runs with permuted discovery order is validated too.',
+    TRUSTED + ' String order of names enters as a rank fact.',
+    'TLA+ spec + TLC exhaustive check + TLC-evaluated oracle on real calls and runs', 'DESIGN.md 5/C10')
+add('C20', 'model_checking',
+    'TLC checks the I-spec Tarjan.tla (one action per loop iteration of DiGraph.sccs, nondeterministic set '
+    'iteration orders) against the mutual-reachability oracle for all digraphs on 3 nodes with every '
+    'iteration order (thorough: all 65 536 on 4 nodes, canonical order), plus termination; the real sccs() '
+    'is run on every digraph <= 3 nodes (thorough <= 4) and random ones to 9 nodes under varied construction '
+    'histories, hashable / identity-keyed / identity-keyed-but-equal nodes, both modes; TLC evaluates the oracle.',
+    TRUSTED, 'TLA+ spec + TLC model checking (safety + liveness) + TLC-evaluated oracle on real calls', 'DESIGN.md 5/C20')
+
 NOT_YET = {
 }
 
